@@ -122,3 +122,90 @@ func init() {
 	regLib("sort.Slice", permute).writes = wr
 	regLib("sort.SliceStable", permute).writes = wr
 }
+
+// ---- JSON: contents of byte slices as abstract blobs; decoding havocs the target object ----
+
+func (x *FnExec) blobOf(st *State, s string) string {
+	x.q.declareSortOnce("Blob")
+	arrSort := fmt.Sprintf("(Array %s %s)", x.q.intSort(), x.q.sortOf(tByte))
+	x.q.declareFun("lib_content", []string{arrSort, x.q.intSort(), x.q.intSort()}, "Blob")
+	return fmt.Sprintf("(lib_content %s (s_off %s) (s_len %s))", sel(x.byteHeap(st), "(s_arr "+s+")"), s, s)
+}
+
+// havocPointee: the object a pointer refers to gets arbitrary type-valid content (one level).
+func (x *FnExec) havocPointee(st *State, reach, hint string, p Val) {
+	a := x.pointerAddr(p)
+	if a == nil {
+		return
+	}
+	if a.Root == rootField && a.Idx == "whole" && len(a.Path) == 0 {
+		stt := a.RootT.Underlying().(*types.Struct)
+		for i := 0; i < stt.NumFields(); i++ {
+			hn, hs, ft := x.fieldHeap(a.RootT, i)
+			v := x.havocVal(hint+"_"+stt.Field(i).Name(), ft, reach)
+			x.assumeAllocT(st, reach, v.S, ft, 1)
+			x.heapSet(st, hn, hs, sto(x.heapGet(st, hn, hs), a.Base, v.S))
+		}
+		return
+	}
+	v := x.havocVal(hint+"_val", a.T, reach)
+	x.assumeAllocT(st, reach, v.S, a.T, 1)
+	x.storeAddr(st, a, v.S)
+}
+
+func init() {
+	unmarshal := func(x *FnExec, fr *frame, n *node, in ssa.Instruction, c *ssa.CallCommon, args []Val, reach, hint string) (Val, error) {
+		res := x.havocVal(hint, resultType(in, c), reach)
+		if mi, ok := c.Args[1].(*ssa.MakeInterface); ok {
+			target := x.value(fr, n.env, mi.X)
+			if _, isPtr := mi.X.Type().Underlying().(*types.Pointer); isPtr {
+				x.havocPointee(n.st, reach, hint, target)
+				// remember what the object was decoded from (only meaningful when err == nil)
+				x.q.declareSortOnce("Blob")
+				hn, hs := "|JsonOf|", "(Array Ref Blob)"
+				h := x.heapGet(n.st, hn, hs)
+				x.heapSet(n.st, hn, hs, sto(h, x.scalar(target), x.blobOf(n.st, args[0].S)))
+			}
+		}
+		x.trusted["json/yaml Unmarshal: target object gets arbitrary type-valid content; error arbitrary; nothing else written"] = true
+		return res, nil
+	}
+	wr := func(x *FnExec, c *ssa.CallCommon, out map[string]bool) {
+		if mi, ok := c.Args[1].(*ssa.MakeInterface); ok {
+			x.addrHeapsOfPointerType(mi.X.Type(), mi.X, out)
+			if pt, ok := mi.X.Type().Underlying().(*types.Pointer); ok {
+				if stt, ok := pt.Elem().Underlying().(*types.Struct); ok {
+					for i := 0; i < stt.NumFields(); i++ {
+						hn, hs, _ := x.fieldHeap(pt.Elem(), i)
+						x.q.heapDecl(hn, hs)
+						out[hn] = true
+					}
+				}
+			}
+		}
+	}
+	for _, nm := range []string{"encoding/json.Unmarshal", "k8s.io/apimachinery/pkg/util/json.Unmarshal", "gopkg.in/yaml.v2.Unmarshal", "sigs.k8s.io/yaml.Unmarshal", "gopkg.in/yaml.v3.Unmarshal", "k8s.io/apimachinery/pkg/util/yaml.Unmarshal"} {
+		regLib(nm, unmarshal).writes = wr
+	}
+	regLib("github.com/evanphx/json-patch.MergePatch", func(x *FnExec, fr *frame, n *node, in ssa.Instruction, c *ssa.CallCommon, args []Val, reach, hint string) (Val, error) {
+		res := x.havocVal(hint, resultType(in, c), reach)
+		x.q.declareSortOnce("Blob")
+		x.q.declareFun("pf_mergePatch", []string{"Blob", "Blob"}, "Blob")
+		// the returned document is a fresh slice holding mp(original, patch)
+		x.q.assert(implies(eq(res.Tuple[1].S, "inil"), eq(x.blobOf(n.st, res.Tuple[0].S), fmt.Sprintf("(pf_mergePatch %s %s)", x.blobOf(n.st, args[0].S), x.blobOf(n.st, args[1].S)))))
+		x.trusted["jsonpatch.MergePatch(original, patch) returns the RFC 7396 merge mp(original, patch) (assumed contract on the dependency)"] = true
+		return res, nil
+	})
+}
+
+func init() {
+	// spec-level access to blobs
+	specLibFuncs["content"] = func(x *FnExec, c *evalCtx, args []Val) (Val, error) {
+		return Val{S: x.blobOf(c.state(), args[0].S), Sort: "Blob"}, nil
+	}
+	specLibFuncs["mergePatch"] = func(x *FnExec, c *evalCtx, args []Val) (Val, error) {
+		x.q.declareSortOnce("Blob")
+		x.q.declareFun("pf_mergePatch", []string{"Blob", "Blob"}, "Blob")
+		return Val{S: fmt.Sprintf("(pf_mergePatch %s %s)", args[0].S, args[1].S), Sort: "Blob"}, nil
+	}
+}
